@@ -218,7 +218,7 @@ struct Rewriter {
     current_let: Option<String>,
     unsupported: Vec<String>,
 }
-const CELL_OPS: &[&str] = &["load", "store", "fetch_add", "fetch_sub", "swap"];
+const CELL_OPS: &[&str] = &["load", "store", "fetch_add", "fetch_sub", "swap", "compare_exchange", "compare_exchange_weak", "fetch_or", "fetch_and", "fetch_max", "fetch_min", "load_full"];
 
 impl Rewriter {
     fn new(labels_in: Option<Vec<String>>) -> Self {
@@ -656,6 +656,24 @@ impl VisitMut for Rewriter {
                 return;
             }
             _ => {}
+        }
+        // R14: `A | B if guard => body` -> one arm per alternative (Verus has no or-pattern with a guard;
+        // equivalent because the alternatives are distinct enum variants)
+        if let Expr::Match(m) = e {
+            let mut arms = vec![];
+            for arm in m.arms.drain(..) {
+                match (&arm.pat, &arm.guard) {
+                    (Pat::Or(po), Some(_)) => {
+                        for alt in po.cases.iter() {
+                            let mut a = arm.clone();
+                            a.pat = alt.clone();
+                            arms.push(a);
+                        }
+                    }
+                    _ => arms.push(arm),
+                }
+            }
+            m.arms = arms;
         }
         // ---------- default descent
         visit_mut::visit_expr_mut(self, e);
